@@ -28,6 +28,20 @@ fn main() {
         println!("storage key names: {:?}", sweep::scan_key_names());
         return;
     }
+    if args[0] == "--feature-sequences" {
+        // the deterministic sequences around entry points the pinned inventory does not know (names and argument seeds)
+        for c in sweep::fixed_cases(args.get(1).and_then(|x| x.parse().ok()).unwrap_or(300)) {
+            if c.more.is_empty() {
+                continue;
+            }
+            let mut line = format!("pick={} {}{:?}", c.pick, c.ep.name, c.seeds);
+            for (e, s, _) in &c.more {
+                line.push_str(&format!(" {}{:?}", e.name, s));
+            }
+            println!("{}", line);
+        }
+        return;
+    }
     if args[0] == "--fuzz-roundtrip" {
         // self-test of the fuzz plumbing: a recorded random case must be regenerated identically from its bytes
         let mut bad = 0;
